@@ -290,7 +290,10 @@ def run_boot(ctx, method):
     # --- invariance: rescaling individual data RDMs (cosine) / shifting and rescaling (corr)
     if method in ('cosine', 'corr', 'cosine_cov', 'corr_cov'):
         scales = rng.uniform(0.1, 10, size=(case['n_rdm'], 1))
-        shifts = rng.uniform(-2, 2, size=(case['n_rdm'], 1)) if method.startswith('corr') else 0.0
+        if rng.integers(2):
+            # some subjects' RDMs recorded in other physical units (1e-10 ... 1e6): still a positive rescaling
+            scales = scales * 10.0 ** rng.choice([-10, -6, -3, 0, 0, 3, 6], size=(case['n_rdm'], 1))
+        shifts = rng.uniform(-2, 2, size=(case['n_rdm'], 1)) * scales if method.startswith('corr') else 0.0
         v3 = case['v'] * scales + shifts
         ok3, out3 = ctx.guarded('invariance', sig, boot_noise_ceiling, build(case, v3), method=method,
                                 rdm_descriptor=by, data=wit)
